@@ -89,6 +89,22 @@ impl FromStr for CsrImm {
     }
 }
 
+impl Imm {
+    /// Apply an optional minus sign to an unsigned 32-bit magnitude.
+    ///
+    /// Without a sign, the magnitude is read as a two's-complement bit
+    /// pattern (`0xFFFFFFFF` is `-1`). A negated magnitude must itself fit
+    /// in 32 bits, so anything below `-0x80000000` is rejected.
+    fn from_magnitude(magnitude: u32, negative: bool) -> Result<Self, ()> {
+        if negative {
+            i32::try_from(-i64::from(magnitude)).map(Imm).map_err(|_| ())
+        } else {
+            #[allow(clippy::cast_possible_wrap)]
+            Ok(Imm(magnitude as i32))
+        }
+    }
+}
+
 impl FromStr for Imm {
     type Err = ();
 
@@ -96,10 +112,10 @@ impl FromStr for Imm {
         let s = s.to_lowercase();
         let s = s.as_str();
         let s = s.trim();
-        let (s, mul) = if let Some(stripped) = s.strip_prefix('-') {
-            (stripped, -1)
+        let (s, negative) = if let Some(stripped) = s.strip_prefix('-') {
+            (stripped, true)
         } else {
-            (s, 1)
+            (s, false)
         };
 
         if s == "zero" {
@@ -109,8 +125,7 @@ impl FromStr for Imm {
                 Err(())
             } else {
                 match u32::from_str_radix(stripped, 16) {
-                    #[allow(clippy::cast_possible_wrap)]
-                    Ok(i) => Ok(Imm(mul * i as i32)),
+                    Ok(i) => Imm::from_magnitude(i, negative),
                     Err(_) => Err(()),
                 }
             }
@@ -119,8 +134,7 @@ impl FromStr for Imm {
                 Err(())
             } else {
                 match u32::from_str_radix(stripped, 2) {
-                    #[allow(clippy::cast_possible_wrap)]
-                    Ok(i) => Ok(Imm(mul * i as i32)),
+                    Ok(i) => Imm::from_magnitude(i, negative),
                     Err(_) => Err(()),
                 }
             }
@@ -128,8 +142,11 @@ impl FromStr for Imm {
             if s.starts_with('-') {
                 return Err(());
             }
-            match s.parse::<i32>() {
-                Ok(i) => Ok(Imm(mul * i)),
+            // Parse the magnitude in 64 bits so that -2147483648 is accepted
+            match s.parse::<i64>() {
+                Ok(i) => i32::try_from(if negative { -i } else { i })
+                    .map(Imm)
+                    .map_err(|_| ()),
                 Err(_) => Err(()),
             }
         }
